@@ -392,3 +392,30 @@ def match_known(prop: str, issue: Issue) -> Optional[Dict[str, Any]]:
         if re.fullmatch(k["signature"], issue.signature or ""):
             return k
     return None
+
+
+# --------------------------------------------------------------------------------------
+# oracle recording (scipy / math functions called by the implementation)
+# --------------------------------------------------------------------------------------
+class Recorder:
+    """Wraps `obj.name` while active and records (args, kwargs, result) of every call."""
+
+    def __init__(self, obj, name):
+        self.obj, self.name = obj, name
+        self.calls = []
+
+    def __enter__(self):
+        self.orig = getattr(self.obj, self.name)
+        orig = self.orig
+
+        def wrapped(*a, **k):
+            r = orig(*a, **k)
+            self.calls.append((a, k, r))
+            return r
+
+        setattr(self.obj, self.name, wrapped)
+        return self
+
+    def __exit__(self, *exc):
+        setattr(self.obj, self.name, self.orig)
+        return False
